@@ -24,6 +24,9 @@ class Ctx:
         self._vh = None
 
     def cleanup(self):
+        if os.environ.get("VERIF_KEEP"):
+            print("kept: " + self.work, file=sys.stderr)
+            return
         shutil.rmtree(self.work, ignore_errors=True)
 
     def path(self, *a):
